@@ -149,6 +149,11 @@ class Ctx:
         self.broken = []          # names of theorems / ties that no longer check
         self._distinct = set()
         self.notes = []
+        self.repo = REPO
+        self.replay_cases = None
+        if replay:
+            obj = json.loads(Path(replay).read_text())
+            self.replay_cases = (obj.get("replay") or {}).get("cases") or []
         kf = VERIF / "known_findings.json"
         self.known = json.loads(kf.read_text()) if kf.exists() else []
 
